@@ -23,10 +23,11 @@ RULE = (
     "distinct = distinct (definition, CSE) pairs; non-trivial = >= 2 input symbols."
     " Saturation constructs (Piecewise) alone and shared by several outputs."
     " Definitions with a declared but unused control / calibration value; for definitions with calibration the same process evaluates the generated functions with two different calibrations (read per point)."
+    " Programs whose inputs are named like generator temporaries (_t0.._t4; quick 3, thorough 5): they must compile and compute the model."
 )
 ASSUMPTIONS = [
     "the vendored Eigen stand-in is at least as permissive as Eigen 3.4 on the slice the generator emits (DESIGN 2.4)",
-    "g++ 12 -std=c++17 -O0 -ffp-contract=off; symbol names are C++ identifiers not reserved by the generator",
+    "g++ 12 -std=c++17 -O0 -ffp-contract=off; symbol names are C++ identifiers and not C++ keywords / generated member names (names such as _t0 ARE in the alphabet)",
     "8 evaluation points per program (all symbols distinct), singular points skipped",
 ]
 REL = 1e-9
@@ -53,6 +54,12 @@ def cases(tier, seed):
     # symbols declared with sympy assumptions (Symbol("x", real=True) is a different object from Symbol("x"))
     defs += [space.assumed(defs[13]), space.assumed(defs[22], ["x", "w"])]
     defs += [space.with_unused(defs[13]), space.with_unused(defs[17])]  # a declared but unused control / calibration value
+    # inputs NAMED like the temporaries the generator invents (_t0.._t4): still an accepted model, so the C++ must compile and
+    # compute it (wave-11 seed C02k: the reservation of declared names compared 'double _t0' with '_t0')
+    from fv.props.c08 import TEMP_NAMED
+    tn = {"x": "_t0", "y": "_t1", "u": "_t2", "c": "_t3", "z": "_t4"}
+    named = [space.rename_def(d, tn) for d in [with_sensors(d) for d in space.family_cse(tier)] if d["name"] in TEMP_NAMED]
+    defs += named if tier == "thorough" else named[:3]
     if tier == "quick":
         special = [d for d in ops if any(t in d["name"] for t in ("atan-tan", "tan-atan", "log-exp", "sqrt-square", "div-by-", "inv-square",
                                                                    "reciprocal", "log-square", "log-prod", "log-neg")) and d not in ops[::3]]
